@@ -43,6 +43,9 @@ pub struct Freshness {
     classes: Vec<String>,
     foreign_wru_steps: u64,
     foreign_wru_echoing_inflight: u64,
+    /// evaluate only the acceptance clause (fresh, unconsumed challenge); used by C01, whose schedules
+    /// contain forged traffic the other clauses are not written for
+    pub acceptance_only: bool,
 }
 
 fn kind_of(w: &World, j: &Injection) -> Option<(u8, [u8; 12], Option<ids::Id>)> {
@@ -80,6 +83,9 @@ impl Oracle for Freshness {
                         Some((1, nonce, _)) => w.prev_snaps[i].active.iter().any(|a| a.nonce == nonce && a.addr.socket_addr == j.from_addr),
                         _ => false,
                     });
+                    if self.acceptance_only {
+                        continue;
+                    }
                     if !ok {
                         return Some((
                             "whoareyou/handshake-without-matching-inflight-nonce".into(),
@@ -107,7 +113,7 @@ impl Oracle for Freshness {
         // flight to is not acted on AT ALL: it neither fails requests nor touches sessions
         for i in 0..w.nodes.len() {
             let mine: Vec<&&Injection> = inj.iter().filter(|j| j.to_node == i).collect();
-            if mine.is_empty() {
+            if mine.is_empty() || self.acceptance_only {
                 continue;
             }
             let all_foreign_wru = mine.iter().all(|j| match kind_of(w, j) {
